@@ -157,6 +157,9 @@ def judge(j):
         bad.append('environ_changed')
     if not j['caller_unchanged']:
         bad.append('caller_buffers_changed')
+    if j.get('nonreentrant_libc_calls', 0):
+        # getpwuid / ttyname / strtok / localtime ...: their static storage is the caller's too (it may be about to exec with strings from it)
+        bad.append('library_used_libc_function_with_static_state_shared_with_the_caller')
     if j['ret'] != j['want_ret']:
         bad.append('ret')
     if j['errno'] != j['want_errno']:
